@@ -213,6 +213,17 @@ func (api *API) mapEncodeStruct(
 		return strconv.FormatUint(timeUint64, 10), nil
 	}
 
+	// whether two members of the struct share a key is a question of the type, not of the value: a key that is used twice
+	// is refused also when one of its users happens to be left out (omitempty, optional) - the decoder looks every
+	// member up by its key and would hand it the entry of the other one
+	usedKeys := make(map[string]struct{})
+	if ts.ObjectType() != nil {
+		usedKeys[keyType] = struct{}{}
+	}
+	if err := api.collectStructKeys(valueType, usedKeys); err != nil {
+		return nil, ierrors.Wrapf(err, "struct %s has no map form", valueType)
+	}
+
 	obj := orderedmap.New()
 	if ts.ObjectType() != nil {
 		obj.Set(keyType, ts.ObjectType())
@@ -288,6 +299,55 @@ func (api *API) mapEncodeStructFields(
 		}
 		if err != nil {
 			return ierrors.Wrapf(err, "failed to serialize struct field %s", sField.name)
+		}
+	}
+
+	return nil
+}
+
+// collectStructKeys adds the keys that the members of the given struct type occupy in the map form of the struct to
+// usedKeys (members of embedded structs and of inlined structs without a key of their own live in the same map) and
+// returns an error if a key is occupied twice. What an inlined interface contributes depends on the value and is left
+// to setUniqueKey.
+func (api *API) collectStructKeys(structType reflect.Type, usedKeys map[string]struct{}) error {
+	structFields, err := api.getStructFields(structType)
+	if err != nil {
+		return err
+	}
+
+	occupy := func(key string) error {
+		if _, used := usedKeys[key]; used {
+			return ierrors.Errorf("key %q is used more than once in the map form of the struct", key)
+		}
+		usedKeys[key] = struct{}{}
+
+		return nil
+	}
+
+	for _, sField := range structFields {
+		memberType := DeRefPointer(sField.fType)
+
+		switch {
+		case sField.isEmbedded && !sField.settings.inlined:
+			if memberType.Kind() == reflect.Struct {
+				err = api.collectStructKeys(memberType, usedKeys)
+			}
+		case sField.settings.ts.fieldKey != nil:
+			err = occupy(*sField.settings.ts.fieldKey)
+		case sField.settings.inlined && memberType.Kind() == reflect.Struct && memberType != timeType && memberType != bigIntPtrType.Elem():
+			if memberTypeSettings, _ := api.typeSettingsRegistry.GetByType(memberType); memberTypeSettings.ObjectType() != nil {
+				err = occupy(keyType)
+			}
+			if err == nil {
+				err = api.collectStructKeys(memberType, usedKeys)
+			}
+		case sField.settings.inlined && memberType.Kind() != reflect.Map:
+			// an inlined interface: depends on the value
+		default:
+			err = occupy(FieldKeyString(sField.name))
+		}
+		if err != nil {
+			return ierrors.Wrapf(err, "field %s", sField.name)
 		}
 	}
 
